@@ -1012,9 +1012,12 @@ pub fn families(check: &str, tier: &str) -> Vec<Box<dyn Family>> {
                 cfg::DEFAULT.with(|c| { c.wrap = 30; c.tw = 4; c.ci = 1; }),
                 cfg::DEFAULT.with(|c| { c.tabs = true; c.fms = false; }),
                 cfg::DEFAULT.with(|c| { c.le = cfg::Le::Crlf; c.begin = cfg::BeginStyle::AlwaysWrap; c.tw = 3; }),
+                // target indentation of a statement-level literal = 2 tabs / 4 tabs: as many bytes as a 2- / 4-space base
+                cfg::DEFAULT.with(|c| { c.tabs = true; c.ci = 1; }),
+                cfg::DEFAULT.with(|c| { c.tabs = true; c.ci = 3; }),
             ];
             if quick {
-                vec![Box::new(o3::C12Family { max_lines: 2, cfgs: base[..4].to_vec(), quotes: vec![3, 5], positions: vec![0, 2, 4, 5] })]
+                vec![Box::new(o3::C12Family { max_lines: 2, cfgs: vec![base[0], base[1], base[2], base[3], base[6], base[7]], quotes: vec![3, 5], positions: vec![0, 4, 5, 6] })]
             } else {
                 vec![
                     Box::new(o3::C12Family { max_lines: 2, cfgs: base.to_vec(), quotes: vec![3, 5, 7], positions: (0..o3::C12_POSITIONS).collect() }),
@@ -1114,7 +1117,7 @@ pub fn families(check: &str, tier: &str) -> Vec<Box<dyn Family>> {
         }
         "C10" => {
             let tws: &'static [u8] = if quick { &[0, 1, 2, 4, 8, 85] } else { &[0, 1, 2, 3, 4, 8, 16, 17, 85, 127, 128, 255] };
-            let cis: &'static [u8] = if quick { &[0, 1, 2, 3] } else { &[0, 1, 2, 3, 15, 16, 127, 255] };
+            let cis: &'static [u8] = if quick { &[0, 1, 2, 3, 4] } else { &[0, 1, 2, 3, 4, 15, 16, 127, 255] };
             // (for the unit clause, including products beyond the u8 boundary)
             let cis_sat: &'static [u8] = if quick { &[0, 1, 3, 4, 255] } else { &[0, 1, 2, 3, 4, 15, 16, 127, 255] };
             let bases = [cfg::DEFAULT, cfg::DEFAULT.with(|c| { c.begin = cfg::BeginStyle::AlwaysWrap; c.le = cfg::Le::Crlf; })];
